@@ -145,6 +145,15 @@ def generic_structured(tier, seed):
                 yield ("generic", f"G={pname}/{an}/{pn}:{mat_str(rows, n)}", {"G": T(rows_to_lists(rows, n))})
 
 
+def generic_padded(tier, seed):
+    """short codes inside longer frames: generator matrices with unused (all-zero) and repeated coordinates - covering radius beyond n/2, cosets
+    whose leader is heavier than t, than n/2 and (nearly) than the redundancy"""
+    mats = {"rep3in7": ["1110000"], "rep3in7mid": ["0101100"], "rep2in6": ["010010"], "k2in8": ["10110000", "01101000"], "k2in8tail": ["00001101", "00010110"],
+            "k2in6": ["111000", "011100"], "k3in9": ["100110000", "010101000", "001011000"], "dup-cols": ["11110000", "00001111"], "k2in7rep": ["1111000", "0000111"]}
+    for name, rows in mats.items():
+        yield ("generic", f"G=padded/{name}:{'.'.join(rows)}", {"G": T([[int(c) for c in r] for r in rows])})
+
+
 def _infosets(k, n, full):
     """information-set options: strings, lists (every ordered k-subset when `full`), tensors."""
     yield "left"
@@ -405,7 +414,7 @@ def restore_pairs():
 
 
 FAMILIES = {
-    "generic": generic_small, "generic-structured": generic_structured, "systematic": systematic, "hamming": hamming,
+    "generic": generic_small, "generic-structured": generic_structured, "generic-padded": generic_padded, "systematic": systematic, "hamming": hamming,
     "golay": golay, "repetition": repetition, "spc": spc, "rm": rm, "cyclic": cyclic, "bch": bch, "rs": rs, "ldpc": ldpc, "dtype-spelling": dtype_spellings,
 }
 
